@@ -262,6 +262,15 @@ def build_tu(vu, work, canary=None):
                     e.text = "\n".join(copies)
                     e.rewrites.append("R4 monomorphised over %s = %s" % (par, types))
                 for key in sorted(kv):
+                    if key.startswith("osubst"):
+                        # optional rewrite (front-end workaround that is only needed while the construct is present)
+                        sep = kv[key][0]
+                        _, frm, to = kv[key].split(sep)[:3]
+                        new, k = re.subn(frm, to, e.text)
+                        if k:
+                            e.text = new
+                            e.rewrites.append("rewrite %r -> %r x%d" % (frm, to, k))
+                        continue
                     if key.startswith("subst"):
                         sep = kv[key][0]
                         _, frm, to = kv[key].split(sep)[:3]
